@@ -9,6 +9,7 @@ Search (real code only):
   `cpython-ast`    canon(parse(s)) == canon(ast.parse(s)) for grammar-derived sentences, exact on what both accept;
                    every derived sentence must be accepted by the engine
   `history`        one SyntaxParser instance over a sequence of texts (indent units, rejects in between) == a fresh instance per text
+  `layout`         the same derivation with line breaks + arbitrary indentation inside brackets (before / between blocks) gives the same tree
   `mutated`        mutated sentences are accepted or rejected with Errors.Syntax naming an input token and an existing line
 """
 from __future__ import annotations
@@ -106,6 +107,25 @@ def paren_depth(tokens: list[str]) -> int:
 	return m
 
 
+def block_depth(tokens: list[str]) -> int:
+	d = m = 0
+	for t in tokens:
+		if t == '\\INDENT':
+			d += 1
+			m = max(m, d)
+		elif t == '\\DEDENT':
+			d -= 1
+	return m
+
+
+def too_deep(tokens: list[str], max_paren: int) -> bool:
+	"""The engine's cost grows about fourfold per level of block nesting and per level of bracket nesting (measured: 5 nested defs ≈ 6 s
+	of CPU, 3 ≈ 0.7 s): sentences stay at ≤ 3 block levels, and at the third level at ≤ 2 bracket levels, so that an ordinary call stays an
+	order of magnitude below the call budget."""
+	b = block_depth(tokens)
+	return paren_depth(tokens) > max_paren or b > 3 or (b == 3 and paren_depth(tokens) > 2)
+
+
 def walrus_then_if(tokens: list[str]) -> bool:
 	"""`t := v if c else d` with the conditional at the walrus's own bracket level: the known grouping difference
 	(group:walrus-over-ternary) is generated on purpose by `walrus_ternary_sentences`, not by the generic sampler."""
@@ -154,7 +174,7 @@ def gen_sentences(world: PyWorld, n: int, max_tokens: int, max_paren: int, keep_
 		attempts += 1
 		level = 'expr' if world.rng.random() < 0.45 else 'stmt'
 		toks = world.sentence(level, world.rng.choice([0, 0, 1, 1, 2]))
-		if len(toks) > max_tokens or paren_depth(toks) > max_paren or walrus_then_if(toks):
+		if len(toks) > max_tokens or too_deep(toks, max_paren) or walrus_then_if(toks):
 			continue
 		text, exact = world.text_of(toks)
 		if not exact and not keep_inexact:
@@ -202,7 +222,7 @@ def stream_engine_py(ctx: Ctx) -> Stream:
 	slow = [0]
 
 	def over() -> bool:
-		return dl.expired() or slow[0] >= 6
+		return dl.expired() or slow[0] >= 3
 
 	for level, toks, text in sentences:
 		if over():
@@ -219,7 +239,7 @@ def stream_engine_py(ctx: Ctx) -> Stream:
 			if rng.random() < 0.25:
 				mtoks, mk2 = gramlib.mutate_tokens(mtoks, rng, world.vocabulary)
 				mk = f'{mk}+{mk2}'
-			if paren_depth(mtoks) > 4:
+			if paren_depth(mtoks) > 4 or block_depth(mtoks) > 4:
 				continue
 			c = engine_case(world, {'kind': 'mutated', 'mutation': mk}, gramlib.render_tokens(mtoks, rng, rng.choice([0.0, 0.5])))
 			if c:
@@ -289,24 +309,37 @@ def stream_engine_random(ctx: Ctx) -> Stream:
 	from rogw.tranp.implements.syntax.tranp.token import Token, TokenTypes
 	rng = ctx.sub_rng('engine-random')
 	cases = []
+	# witness of C11.T6_complete_counterexample first: under `x := "a" ("a")*` the derivable text `a a` is rejected (greedy repeat, no backtracking)
+	greedy = ('entry', [('rule', [('symbol', 'x'), ('__empty__', ''), ('terms', [('string', '"a"'), ('expr_rep', [('string', '"a"'), ('repeat', '*')])])])])
+	trees = [(greedy, ['a'], [], [['a', 'a'], ['a'], ['a', 'a', 'a']])]
 	for _ in range(ctx.scale(150, 2000)):
 		tree, strings, regexps_used = safe_grammar(rng)
-		rules = Rules.from_ast(tree)
-		regexps = gen_rules.regexps_of(rules)
+		trees.append((tree, strings, regexps_used, None))
+	for tree, strings, regexps_used, fixed in trees:
+		try:
+			with gramlib.budget(gramlib.CALL_BUDGET_S):
+				rules = Rules.from_ast(tree)
+				regexps = gen_rules.regexps_of(rules)
+				n_rules, keywords = len(rules._rules), list(rules.keywords)
+		except Exception as e:  # noqa: BLE001 - the loader refuses a well-shaped tree: the model must refuse it too
+			cases.append(({'outcomes': [f'from_ast:{exc_enum(e)}']}, [f'rules\tast\t{gramlib.tentry_sexp(tree)}\t'], [exc_enum(e)]))
+			continue
 		alphabet = [*strings, 'a', 'b', 'z', '7', '42', '*', 'q', *[r for r in regexps if rng.random() < 0.2]]
 		ops = []
 		real = []
 		masks = sorted({gen_rules.classify(regexps, s) for s in alphabet})
 		ops.append(f'rules\tast\t{gramlib.tentry_sexp(tree)}\t{gramlib.rx_spec(regexps, masks)}')
-		real.append(f'ok {len(rules._rules)}')
+		real.append(f'ok {n_rules}')
 		ops.append('keywords')
-		real.append(','.join(hx(k) for k in rules.keywords))
+		real.append(','.join(hx(k) for k in keywords))
 		outcomes = []
-		for _ in range(6):
+		for k in range(len(fixed) if fixed else 6):
 			n = rng.choice([0, 1, 2, 3, 4, 5, 6, 8])
 			strs = [rng.choice(alphabet) for _ in range(n)]
 			# bias towards acceptable inputs: sometimes derive from the grammar itself
-			if rng.random() < 0.5:
+			if fixed:
+				strs = fixed[k]
+			elif rng.random() < 0.5:
 				try:
 					strs = derive_random(rules, rng, alphabet)
 				except RecursionError:
@@ -317,11 +350,15 @@ def stream_engine_random(ctx: Ctx) -> Stream:
 			for s in strs:
 				tokens.append(Token(TokenTypes.Unknown, s, Token.SourceMap(0, col, 0, col + len(s))))
 				col += len(s) + 1
-			entry = 'entry' if rng.random() < 0.9 else rng.choice(['a', 'zz', 'T'])
+			entry = 'x' if fixed else 'entry' if rng.random() < 0.9 else rng.choice(['a', 'zz', 'T'])
 			kind, payload = gramlib.real_parse(rules, gramlib.FixedTokenizer(tokens), source, entry)
 			outcomes.append(kind)
 			ops.append(f'parse\t{hx(entry)}\t{hx(source)}\t{gramlib.toks_field(tokens, regexps)}')
 			real.append(gramlib.real_parse_line(kind, payload))
+		if fixed and outcomes[:2] != ['Errors.Syntax', 'Errors.Syntax']:
+			# the Lean counterexample says the real engine rejects `a a` (and `a`); if it does not, the theorem no longer describes the code
+			real.append(f'greedy-repeat witness: real outcomes {outcomes}')
+			ops.append('bad-op\texpected Errors.Syntax for a a under x := "a" ("a")*')
 		cases.append(({'outcomes': outcomes}, ops, real))
 	st = common.correspond('engine-random', cases, 'engine', classify=lambda d: Counter(d['outcomes']).most_common(1)[0][0])
 	hist: Counter[str] = Counter()
@@ -454,7 +491,7 @@ def search_cpython(ctx: Ctx) -> SearchResult:
 	dl = gramlib.Deadline(ctx.scale(120, 900))
 	slow = 0
 	for level, toks, text in purpose + gen_sentences(world, ctx.scale(700, 5000), ctx.scale(70, 120), 3, keep_inexact=True):
-		if dl.expired() or slow >= 6:
+		if dl.expired() or slow >= 3:
 			res.note = f'stopped early: wall budget {dl.seconds} s over or {slow} calls exceeded their budget'
 			break
 		res.cases += 1
@@ -520,12 +557,12 @@ def search_mutated(ctx: Ctx) -> SearchResult:
 	for level, toks, text in gen_sentences(world, ctx.scale(350, 2000), ctx.scale(60, 100), 3):
 		for _ in range(2):
 			mtoks, mk = gramlib.mutate_tokens(toks, rng, world.vocabulary)
-			if paren_depth(mtoks) <= 4:
+			if paren_depth(mtoks) <= 4 and block_depth(mtoks) <= 4:
 				texts.append((mk, gramlib.render_tokens(mtoks, rng, rng.choice([0.0, 0.5]))))
 	dl = gramlib.Deadline(ctx.scale(120, 900))
 	slow = 0
 	for mk, text in texts:
-		if dl.expired() or slow >= 6:
+		if dl.expired() or slow >= 3:
 			res.note = f'stopped early: wall budget {dl.seconds} s over or {slow} calls exceeded their budget'
 			break
 		res.cases += 1
@@ -656,6 +693,72 @@ def search_history(ctx: Ctx) -> SearchResult:
 	return res
 
 
+def search_layout(ctx: Ctx) -> SearchResult:
+	"""Continuation lines: the same derivation rendered on one line per statement and with line breaks + arbitrary indentation inside
+	brackets (after an opening bracket / a comma, before a closing bracket), in front of and between indented blocks, block indent
+	tab / 2 / 4 / 8 blanks. CPython reads both layouts as one program (checked per case); the engine must return the same tree."""
+	rng = ctx.sub_rng('layout')
+	world = PyWorld(rng)
+	res = SearchResult('line breaks and indentation inside brackets do not change the engine\'s tree (same derivation, one-line vs wrapped layout; CPython agrees per case)')
+	hist: Counter[str] = Counter()
+	seen: set[str] = set()
+	pool = gen_sentences(world, ctx.scale(260, 1800), 60, 3)
+	flat = [s for s in pool if '\\INDENT' not in s[1] and any(t in ('(', '[', '{') for t in s[1])]
+	blocks = [s for s in pool if '\\INDENT' in s[1]]
+	fixed = [['x', '=', 'f', '(', 'a', ',', 'b', ')', '\n', 'if', 'c', ':', '\n', '\\INDENT', 'y', '=', '1', '\n', '\\DEDENT'],
+		['x', '=', '[', '1', ',', '2', ']', '\n', 'while', 'c', ':', '\n', '\\INDENT', 'if', 'a', ':', '\n', '\\INDENT', 'y', '=', 'g', '(', 'a', ',', 'b', ')', '\n', '\\DEDENT', '\\DEDENT']]
+	cases: list[list[str]] = list(fixed)
+	for _ in range(ctx.scale(160, 1200)):
+		toks: list[str] = []
+		for _ in range(rng.choice([1, 1, 2])):
+			if flat:
+				toks.extend(rng.choice(flat)[1])
+		if blocks and rng.random() < 0.75:
+			toks.extend(rng.choice(blocks)[1])
+			if flat and rng.random() < 0.3:
+				toks.extend(rng.choice(flat)[1])
+		if toks and len(toks) <= 110 and not too_deep(toks, 3):
+			cases.append(toks)
+	dl = gramlib.Deadline(ctx.scale(60, 500))
+	slow = 0
+	for i, toks in enumerate(cases):
+		if dl.expired() or slow >= 3:
+			res.note = f'stopped early: wall budget {dl.seconds} s over or {slow} calls exceeded their budget'
+			break
+		ind = rng.choice(['\t', '    ', '  ', '        '])
+		base = gramlib.render_tokens(toks, rng, 0.0, indent=ind)
+		wrapped = gramlib.render_tokens(toks, rng, 0.0, indent=ind, wrap=0.9 if i < len(fixed) else rng.choice([0.3, 0.6, 0.9]))
+		if wrapped == base:
+			hist['nothing-to-wrap'] += 1
+			continue
+		try:
+			same_program = ast.dump(ast.parse(base)) == ast.dump(ast.parse(wrapped))
+		except (SyntaxError, ValueError, RecursionError, MemoryError):
+			hist['cpython-rejects'] += 1
+			continue
+		if not same_program:
+			hist['cpython-differs'] += 1
+			continue
+		res.cases += 1
+		seen.add(wrapped)
+		a = gramlib.real_parse(world.rules, world.tokenizer, base)
+		b = gramlib.real_parse(world.rules, world.tokenizer, wrapped)
+		slow += (a[0] == 'budget-exceeded') + (b[0] == 'budget-exceeded')
+		if a[0] != 'ok':
+			hist[f'one-line-layout:{a[0]}'] += 1  # the cpython-ast search judges the plain layout
+			continue
+		if b == a:
+			hist['same-tree'] += 1
+			continue
+		hist[f'DIFFERS:{b[0]}'] += 1
+		res.findings.append(Finding(key='does-not-terminate:budget-exceeded' if b[0] == 'budget-exceeded' else 'layout:line-break-inside-brackets',
+			what=f'the same program with continuation lines inside brackets is read differently ({b[0]}): {wrapped!r} vs {base!r}',
+			replay={'text': wrapped, 'unwrapped': base, 'derivation': toks, 'outcome': b[0], 'message': b[1] if isinstance(b[1], str) else repr(b[1])[:1500]}))
+	res.distinct = len(seen)
+	res.histogram = dict(hist)
+	return res
+
+
 def guarded(kind: str, name: str, fn, ctx: Ctx):
 	"""Run one stream / search; an exception that escapes it (raised by the code under test at a place the harness did not expect,
 	e.g. while loading the rule modules) becomes a reported result instead of a harness crash (CONVENTIONS addendum 14)."""
@@ -699,6 +802,9 @@ STATEMENTS = {
 	'T4_ladders_py': 'comp_or, comp_and, comp, calc_sum, calc_mul of the generated py table are exactly ladder rules (kernel-decided), chained level by level',
 	'walrus_ternary_engine': 'kernel-evaluated: on the generated py rules the engine model reads ( x := a if c else d ) as ternary[expr_move[x, a], c, d]',
 	'walrus_ternary_counterexample': 'hence not CPython\'s grouping expr_move[x, ternary[a, c, d]] — the known finding group:walrus-over-ternary (cause: rule structure of py_gram.lark)',
+	'T6_sound_match': 'for every rule set, oracle, cursor and symbol: a successful _match_symbol returns exactly one entry, and it is a derivation (declarative reading DSym/DPat/DSeq/DIter: no cursor, no order of evaluation) of exactly the tokens consumed',
+	'T6_sound': 'every tree parse returns is a derivation of the WHOLE token list from the entrypoint under the declarative reading of the rules: ordered choice and greedy repetition only select among the grammar\'s derivations, they never build a structure outside it',
+	'T6_complete_counterexample': 'the converse (every derivable sentence is accepted) is false for this engine: under x := "a" ("a")* the text `a a` is rejected (greedy repeat from the right, no backtracking); replayed on the real engine by engine-random',
 	'T5_error_line': 'the summary line number is begin_line+1 of an input token, inside [1, #lines] when that token has a non-negative source map',
 	'T5_error_line_counterexample': 'an EOF-derived cause token (source map -1) prints line (0): the unguarded statement is false',
 }
@@ -710,16 +816,16 @@ def run(ctx: Ctx) -> int:
 	with ctx.timed('correspondence'):
 		streams = [guarded('stream', 'engine-py', stream_engine_py, ctx), guarded('stream', 'engine-random', stream_engine_random, ctx), guarded('stream', 'engine-summary', stream_summary, ctx)]
 	with ctx.timed('search'):
-		searches = [guarded('search', 'cpython-ast', search_cpython, ctx), guarded('search', 'mutated', search_mutated, ctx), guarded('search', 'history', search_history, ctx)]
+		searches = [guarded('search', 'cpython-ast', search_cpython, ctx), guarded('search', 'mutated', search_mutated, ctx), guarded('search', 'history', search_history, ctx), guarded('search', 'layout', search_layout, ctx)]
 	return common.finish(ctx, proof, streams, searches, translate_ok=ok, translate_msg=msg,
 		statements=STATEMENTS,
 		partial={
-			'proved': 'termination for well-formed rule sets incl. both shipped sets, all-or-error, yield/order of leaves, flat chains of ladder rules, error-line range under the source-map guard',
+			'proved': 'termination for well-formed rule sets incl. both shipped sets, all-or-error, yield/order of leaves, soundness against the declarative reading of any rule set (every returned tree is a derivation of the whole input: T6), flat chains of ladder rules and their grouping, error-line range under the source-map guard',
 			'correspondence_only': 'the Lean matcher equals SyntaxParser on py_rules()/random rule sets; regexp terminals enter as a classification table evaluated by the real re',
-			'search_only': 'agreement with CPython ast (ordered choice never prefers a wrong alternative on py_gram.lark; group_partial covers the binary ladders only: prefix levels not / unary minus, ternary, lambda, walrus, attribute/call/index chains and that the engine ACCEPTS every such expression are search-only), acceptance of every derivable sentence',
+			'search_only': 'agreement with CPython ast (ordered choice never prefers a wrong alternative on py_gram.lark; group_partial covers the binary ladders only: prefix levels not / unary minus, ternary, lambda, walrus, attribute/call/index chains and that the engine ACCEPTS every such expression are search-only), acceptance of every derivable sentence (the general converse of T6 is false: T6_complete_counterexample)',
 		},
 		assumptions=[
-			'sentences are bounded (≤ ~110 tokens, bracket nesting ≤ 3): the engine is exponential in bracket nesting and recursive (RecursionError beyond the bound is outside the quantifier)',
+			'sentences are bounded (≤ ~110 tokens, bracket nesting ≤ 3, block nesting ≤ 3): the engine is exponential in bracket and block nesting and recursive (RecursionError beyond the bound is outside the quantifier)',
 			'binary minus is written with blanks, unary minus without (the lexer decides unary/binary by the following blank: tokenizer.py:402-410)',
 			'identifiers are ASCII and not Python keywords; string literals are simple quoted strings',
 			'symbol expressions are DSN-atomic (non-empty, no dot) as produced by Pattern.make',
